@@ -88,6 +88,7 @@ def corr(ctx, gname, lines, project, lib=None, nontrivial=None, exhaustive=False
                     mism.append((ln, a, b, pa, pb))
         ctx.rep.add_cases(gname, part, c_out, nontrivial, exhaustive=exhaustive, note=note)
         total += len(part)
+    mism.sort(key=lambda t: len(t[0]))
     for ln, a, b, pa, pb in mism[:ctx.mismatch_budget]:
         obj = {'kind': 'correspondence', 'correspondence': 'corr:%s/%s' % (ctx.pid, gname), 'case': ln,
                'build': dict(zip(('rfc20', 'f5322', 'uscore', 'extra', 'san'), lib.cfg)),
@@ -128,7 +129,44 @@ def check_C02(ctx):
     return finish(ctx, rule='L cases: is_{822,5321,5322,6531}_local on (s, rest); projection = accept/reject of the three ASCII scanners; '
                   'non-trivial = not rejected as empty; distinct by case line')
 
-CHECKS = {'C02': check_C02}
+
+# ------------------------------------------------------------------ C04
+def check_C04(ctx):
+    step_proof(ctx)
+    dproj = lambda ln, o: dec(o.split(' ')[0])
+    def describe(ln, a, b):
+        return ('accept/reject of the host-name domain differs from the model, which theorem C04_ascii_domain proves equal to '
+                'HostnameSpec (LDH labels 1-63, total <= 253 without root dot, not all-numeric): implementation %s, specification %s' % (a, b))
+    nontriv = lambda ln, o: not o.startswith('-16')
+    n = 8 if ctx.thorough() else 6
+    doms = gens.dom_class(n)
+    corr(ctx, 'G-class(len<=%d)' % n, gens.dom_lines(doms), dproj, exhaustive=True, describe=describe, nontrivial=nontriv,
+         note='all strings over {a,1,-,.,_,!,0xC3,A}')
+    bnd = gens.dom_boundary()
+    corr(ctx, 'G-boundary', gens.dom_lines(bnd), dproj, exhaustive=True, describe=describe, nontrivial=nontriv,
+         note='label lengths 0-70 in first/middle/last position, total lengths 236-261 with and without root dot')
+    corr(ctx, 'G-sweep', gens.dom_lines(gens.dom_sweep()), dproj, exhaustive=True, describe=describe, nontrivial=nontriv)
+    corr(ctx, 'G-rest', gens.dom_lines(gens.dom_class(4), rests=(b'x', b'.', b'-')), dproj, exhaustive=True, describe=describe, nontrivial=nontriv,
+         note='end pointer inside a longer string')
+    rnd = gens.dom_random(ctx.rnd, 30000 if not ctx.thorough() else 300000)
+    corr(ctx, 'G-random', gens.dom_lines(rnd), dproj, describe=describe, nontrivial=nontriv)
+    # underscore build
+    lu = ctx.snap.lib(uscore=True)
+    corr(ctx, 'uscore-build:G-class(len<=%d)' % (n - 1), gens.dom_lines(gens.dom_class(n - 1)), dproj, lib=lu, exhaustive=True, describe=describe, nontrivial=nontriv)
+    corr(ctx, 'uscore-build:G-boundary', gens.dom_lines(gens.dom_boundary(chars=(b'_', b'x', b'-'))), dproj, lib=lu, exhaustive=True, describe=describe, nontrivial=nontriv)
+    # the same domains through is_utf8_domain (real libidn2 as oracle) and through the four composers, TLD checking off
+    sample = bnd + gens.dom_class(4) + rnd[:5000]
+    orc = vlib.idn_oracle(sample)
+    uproj = lambda ln, o: (int(o.split(' ')[0]) >= 0) if o and o[0] in '-0123456789' else o
+    corr(ctx, 'is_utf8_domain(tld off)', gens.u_lines(sample, orc, tlds=(0,)), uproj, describe=describe, nontrivial=nontriv)
+    eproj = lambda ln, o: dec(o.split(' ')[0])
+    corr(ctx, 'email(tld off)', gens.e_lines([b'x@' + d for d in sample if b'@' not in d], orc, tlds=(0,)), eproj, describe=describe,
+         nontrivial=lambda ln, o: not o.startswith(('-16', '-3 ')))
+    return finish(ctx, rule='D cases: is_ascii_domain on (s, rest); U cases: is_utf8_domain with libidn2 2.3.3 as oracle; E cases: x@domain in four modes, '
+                  'tld_check off; default and LABELS_ALLOW_UNDERSCORE builds; projection = accept/reject; non-trivial = not rejected as empty',
+                  extra_trusted=['libidn2 2.3.3 as IDN oracle (its answers are inputs of the model)'])
+
+CHECKS = {'C02': check_C02, 'C04': check_C04}
 
 def main():
     if len(sys.argv) >= 3 and sys.argv[1] == 'replay':
